@@ -104,6 +104,7 @@ pub fn run<C: Codec>(case: &Value, out: &mut Out) {
             } }
         }
     }
+    if bat == "full" || bat == "alias" { alias_and_chains::<C>(case, out, &p, &q); }
     if bat != "full" { return; }
     // ---- unary operations on p
     poly_op::<C>(case, out, "neg", form, &p, None, &none, &|a, _| if own { -(a.clone()) } else { -a });
@@ -127,6 +128,21 @@ pub fn run<C: Codec>(case: &Value, out: &mut Out) {
     { let mut e = base::<C>(case, "size", "ref", &p, None); e["d"] = json!(p.size()); out.ev(e); }
 }
 
+/// the SAME object on both sides of every by-reference binary operator (&p * &p, &p + &p, &p - &p), and chained expressions
+/// that reuse one object; checked against Poly.tla like any other call (q = p in the event)
+fn alias_and_chains<C: Codec>(case: &Value, out: &mut Out, p: &Polynomial<C::T>, q: &Polynomial<C::T>) {
+    let none = |_: &mut Value| {};
+    poly_op::<C>(case, out, "mul", "alias", p, Some(p), &none, &|a, _| a * a);
+    poly_op::<C>(case, out, "add", "alias", p, Some(p), &none, &|a, _| a + a);
+    poly_op::<C>(case, out, "sub", "alias", p, Some(p), &none, &|a, _| a - a);
+    // (p*p)*p, (p+p)-p: one object used three times
+    poly_op::<C>(case, out, "cube", "chain", p, None, &none, &|a, _| &(a * a) * a);
+    poly_op::<C>(case, out, "lin", "chain", p, None, &none, &|a, _| &(a + a) - a);
+    // p*q - q*p (zero), p*p + q*q
+    poly_op::<C>(case, out, "comm", "chain", p, Some(q), &none, &|a, b| &(a * b.unwrap()) - &(b.unwrap() * a));
+    poly_op::<C>(case, out, "sumsq", "chain", p, Some(q), &none, &|a, b| &(a * a) + &(b.unwrap() * b.unwrap()));
+}
+
 pub fn exec(case: &Value, out: &mut Out) {
     match gets(case, "ty") { "rat" => run::<RatI>(case, out), "f64" => run::<F64I>(case, out), "cx" => run::<CxI>(case, out), "ratq" => run::<RatQ>(case, out),
         t => { eprintln!("TOOL-ERROR unknown type {}", t); std::process::exit(2) } }
@@ -136,6 +152,14 @@ pub fn exec(case: &Value, out: &mut Out) {
 fn coeffs(rng: &mut StdRng, len: usize, lim: i64, lead_nz: bool) -> Vec<i64> {
     let mut v: Vec<i64> = (0..len).map(|_| if rng.gen_bool(0.15) { 0 } else { rng.gen_range(-lim..=lim) }).collect();
     if lead_nz && len > 0 && v[len - 1] == 0 { v[len - 1] = if rng.gen_bool(0.5) { 1 } else { -lim }; }
+    v
+}
+/// force one of the special exact values 0, 1, -1 into one position (constant, inner, leading; never 0 in the leading one)
+fn special(rng: &mut StdRng, mut v: Vec<i64>, k: usize) -> Vec<i64> {
+    let n = v.len(); if n == 0 { return v; }
+    let pos = match k % 3 { 0 => 0, 1 => n - 1, _ => rng.gen_range(0..n) };
+    let val = [1i64, -1, 0][rng.gen_range(0..3)];
+    v[pos] = if pos == n - 1 && val == 0 { 1 } else { val };
     v
 }
 fn qcoeffs(rng: &mut StdRng, len: usize) -> Vec<Value> {
@@ -153,7 +177,9 @@ pub fn gen(tier: &str, seed: u64, out: &mut Out) {
     for lp in 0..=9usize { for lq in 0..=9usize { for rep in 0..reps {
         let ty = tys[(lp + 2 * lq + rep) % 3];
         let lead = rng.gen_bool(0.7);
-        let mut c = json!({"ty": ty, "p": coeffs(&mut rng, lp, 9, lead), "q": coeffs(&mut rng, lq, 9, lead),
+        let (pp, qq) = (coeffs(&mut rng, lp, 9, lead), coeffs(&mut rng, lq, 9, lead));
+        let (pp, qq) = if (lp + lq + rep) % 3 == 0 { (special(&mut rng, pp, lq), special(&mut rng, qq, lp)) } else { (pp, qq) };
+        let mut c = json!({"ty": ty, "p": pp, "q": qq,
                            "form": if (lp + lq + rep) % 2 == 0 { "ref" } else { "own" }, "bat": if quick && (lp + lq) % 2 == 1 { "pair" } else { "full" },
                            "xs": [rng.gen_range(-2..=2i64), -2, 2, 1, 0, -1], "ss": [rng.gen_range(-9..=9i64), 0, -1], "beyond": if rep % 2 == 1 { 1 } else { 0 }});
         if ty == "cx" {
@@ -164,6 +190,16 @@ pub fn gen(tier: &str, seed: u64, out: &mut Out) {
             c["xs"] = json!((0..6).map(|j| pts[(j + k) % 6].0).collect::<Vec<i64>>()); c["xsi"] = json!((0..6).map(|j| pts[(j + k) % 6].1).collect::<Vec<i64>>());
             c["ssi"] = json!([rng.gen_range(-9..=9i64), 1, 0]);
         }
+        push(out, c);
+    } } }
+    // (a2) aliasing: the same object on both sides, every length 0..9 (degree 0..8 and empty), every element type
+    for len in 0..=9usize { for ty in ["rat", "f64", "cx", "ratq"] { for rep in 0..(if quick { 1 } else { 4 }) {
+        if ty == "ratq" && len > 5 { continue; }
+        let base = coeffs(&mut rng, len, 9, true); let basei = coeffs(&mut rng, len, 9, false);
+        let mut c = if ty == "ratq" { json!({"ty": ty, "p": qcoeffs(&mut rng, len), "q": qcoeffs(&mut rng, (len + rep) % 4)}) }
+                    else { json!({"ty": ty, "p": special(&mut rng, base, rep), "q": coeffs(&mut rng, (len + 2 * rep + 1) % 10, 9, true)}) };
+        c["form"] = json!("ref"); c["bat"] = json!("alias"); c["xs"] = if ty == "ratq" { json!([[1, 2]]) } else { json!([2]) }; c["ss"] = json!([]); c["beyond"] = json!(0);
+        if ty == "cx" { c["pi"] = json!(special(&mut rng, basei, rep + 1)); c["qi"] = json!(coeffs(&mut rng, (len + 2 * rep + 1) % 10, 9, false)); c["xsi"] = json!([1]); c["ssi"] = json!([]); }
         push(out, c);
     } } }
     // (b) rational coefficients and scalars (Polynomial<Rat>), degree <= 4
